@@ -119,16 +119,13 @@ CONTEXTS = [
 
 
 def gen_contexts(run):
-    """every catalogue statement embedded in every control context."""
+    """catalogue x contexts, templates x operand shapes, templates x key shapes x contexts (vf/gen/spaces.py)."""
+    from vf.gen import spaces
     cases = []
-    for d in core.cube(run, [("ctx", CONTEXTS), ("stmt", K.CATALOGUE)]):
-        name, stmt, alt = d["stmt"]
-        if stmt.startswith(("DATA", "REM", "'")) and d["ctx"][0] not in ("colon_after", "twice"):
-            # DATA/REM swallow the rest of the line; only sensible as the last statement
-            pass
-        text = d["ctx"][1].replace("{}", stmt)
-        cases.append({"text": K.program_for([text]), "opts": {}, "origin": f"ctx:{d['ctx'][0]}:{name}", "gen": "ctx"})
-        cases.append({"text": K.program_for([text]), "opts": {"initialize_vars": True, "filter_unused_linenum": True, "output_dependencies": True, "procname": "p"}, "origin": f"ctx:{d['ctx'][0]}:{name}", "gen": "ctx"})
+    full = {"initialize_vars": True, "filter_unused_linenum": True, "output_dependencies": True, "procname": "p"}
+    for text, origin in spaces.all_programs(run):
+        cases.append({"text": text, "opts": {}, "origin": origin, "gen": "ctx"})
+        cases.append({"text": text, "opts": full, "origin": origin, "gen": "ctx"})
     return cases
 
 
